@@ -32,8 +32,8 @@ WEB_PLAN = {
     # measured (server with optimised dependencies): seq 0.17 s/history, c16 0.15 s/history, conc 0.2 s/history, d9 0.3 s
     "C17": {"quick": [("seq", 300, []), ("conc", 40, []), ("d9", 3, [])],                        # ~60 s + 15 s proof step
             "thorough": [("seq", 6000, []), ("conc", 600, ["--scale", "3"]), ("d9", 6, [])]},    # ~25 min
-    "C16": {"quick": [("c16", 250, []), ("d9", 3, [])],                                          # ~40 s + 10 s proof step
-            "thorough": [("c16", 4000, []), ("seq", 500, []), ("d9", 6, [])]},                   # ~12 min
+    "C16": {"quick": [("c16", 250, []), ("d9", 3, []), ("d14", 1, [])],                                          # ~40 s + 10 s proof step
+            "thorough": [("c16", 4000, []), ("seq", 500, []), ("d9", 6, []), ("d14", 3, [])]},                   # ~12 min
 }
 
 
@@ -80,6 +80,7 @@ def web_extra(prop, tier, seed):
     nontrivial = set()
     dist = {}
     known_d9 = 0
+    known_d14 = [0]
     t0 = time.time()
     for mode, cases, more in WEB_PLAN[prop][tier]:
         mism, icases, istats, impl = web_run(prop, mode, cases, seed, more=more)
@@ -95,6 +96,8 @@ def web_extra(prop, tier, seed):
                     dist[f"{mode}:{key}"] = dist.get(f"{mode}:{key}", 0) + 1
                 if line.startswith("# known D9") and d.get("reproduced") == "1":
                     known_d9 += 1
+                if line.startswith("# known D14") and d.get("reproduced") == "1":
+                    known_d14[0] += 1
                 # non-trivial: a history in which at least one background task ran (a problem was added and parsed)
                 if int(d.get("tasks", "0") or 0) >= 1:
                     nontrivial.add(case_hash(reqs))
@@ -106,7 +109,7 @@ def web_extra(prop, tier, seed):
     if corr_mism and not [m for m in prop_mism if not R.match_known(prop, m, R.load_known())]:
         for k in range(1, 4):
             for mode, cases, more in WEB_PLAN[prop][tier]:
-                if mode.startswith("d9"):
+                if mode.startswith("d9") or mode == "d14":
                     continue
                 mism, icases, _, _ = web_run(prop, mode, cases * 5, seed * 1000 + 17 * k, tag="-ext", more=more)
                 evaluations += len(icases)
@@ -115,8 +118,8 @@ def web_extra(prop, tier, seed):
                 break
     return dict(prop_mism=prop_mism, corr_mism=corr_mism, evaluations=evaluations, distinct_nontrivial=len(nontrivial),
                 samples=samples, summary=f"{evaluations} histories, {len(prop_mism)} property / {len(corr_mism)} correspondence differences, "
-                                         f"D9 reproduced in {known_d9} scheduled histories",
-                coverage={"modes": [list(x[:2]) for x in WEB_PLAN[prop][tier]], "distribution": dict(sorted(dist.items())[:80]), "d9_reproduced": known_d9})
+                                         f"D9 reproduced in {known_d9} scheduled histories, D14 in {known_d14[0]}",
+                coverage={"modes": [list(x[:2]) for x in WEB_PLAN[prop][tier]], "distribution": dict(sorted(dist.items())[:80]), "d9_reproduced": known_d9, "d14_reproduced": known_d14[0]})
 
 
 def web_replay(prop, data):
